@@ -1247,10 +1247,8 @@ func ruleChaptersInSpineOrder(c *eng.Ctx) {
 			okOrder := sorted
 			if len(hs) > 0 {
 				for _, src := range loopRangeSource(hs[0]) {
-					for v := range eng.Slice(src, nil) {
-						if fr, ok := eng.AsField(v); ok && fr.Field == "Spine" {
-							okOrder = true
-						}
+					if builtInOrderOf(src, "Spine", 0) {
+						okOrder = true
 					}
 				}
 			}
@@ -3614,4 +3612,152 @@ func DebugParsedLoops(c *eng.Ctx) {
 			}
 		})
 	}
+}
+
+// validatedByEarlierPass: block blk comes after a complete pass over the collection in field `field` that leaves only
+// when every element satisfies pred — a loop that (1) walks the whole collection with a +1 index from its start,
+// (2) reaches its next trip only over edges where pred holds for the element, (3) is left towards blk only through its
+// header (when the index has run out, never by break), and the function (4) never writes the collection. Then pred
+// holds for every element of the collection at blk, whichever loop reads it there.
+func validatedByEarlierPass(fn *ssa.Function, blk *ssa.BasicBlock, field string, pred func(eng.Fact) bool) bool {
+	// (4)
+	written := false
+	eng.Instrs(fn, true, func(in ssa.Instruction) {
+		st, ok := in.(*ssa.Store)
+		if !ok {
+			return
+		}
+		if fr, ok := eng.AsField(st.Addr); ok && fr.Field == field {
+			written = true
+		}
+		if ia, ok := st.Addr.(*ssa.IndexAddr); ok {
+			if fr, ok := eng.LoadOfField(ia.X); ok && fr.Field == field {
+				written = true
+			}
+		}
+	})
+	if written {
+		return false
+	}
+	for _, h := range fn.Blocks {
+		if !h.Dominates(blk) || h == blk {
+			continue
+		}
+		// natural loop of h
+		body := map[*ssa.BasicBlock]bool{h: true}
+		var latches []*ssa.BasicBlock
+		for _, p := range h.Preds {
+			if h.Dominates(p) {
+				latches = append(latches, p)
+			}
+		}
+		if len(latches) == 0 {
+			continue
+		}
+		stack := append([]*ssa.BasicBlock(nil), latches...)
+		for len(stack) > 0 {
+			b := stack[len(stack)-1]
+			stack = stack[:len(stack)-1]
+			if body[b] {
+				continue
+			}
+			body[b] = true
+			stack = append(stack, b.Preds...)
+		}
+		if body[blk] {
+			continue
+		}
+		// (1)
+		whole := false
+		for _, src := range loopRangeSource(h) {
+			if fr, ok := eng.LoadOfField(src); ok && fr.Field == field {
+				whole = true
+			}
+		}
+		if whole {
+			whole = false
+			for _, in := range h.Instrs {
+				if ph, ok := in.(*ssa.Phi); ok {
+					if ind, isInd := eng.Induction(ph); isInd && ind == ph {
+						for i, e := range ph.Edges {
+							if body[h.Preds[i]] {
+								continue
+							}
+							if k, isC := eng.ConstInt(e); isC && (k == 0 || k == -1) {
+								whole = true
+							}
+						}
+					}
+				}
+			}
+		}
+		if !whole {
+			continue
+		}
+		// (2)
+		ok := true
+		for _, l := range latches {
+			guarded := eng.GuardedBy(fn, l, pred)
+			for i, sx := range l.Succs {
+				if sx == h && eng.AnyEdgeFact(eng.Edge{From: l, Succ: i}, pred) {
+					guarded = true
+				}
+			}
+			if !guarded {
+				ok = false
+			}
+		}
+		// (3)
+		for b := range body {
+			if b == h {
+				continue
+			}
+			for _, sx := range b.Succs {
+				if !body[sx] && (sx == blk || eng.ReachableBlocks([]*ssa.BasicBlock{sx}, nil)[blk]) {
+					ok = false
+				}
+			}
+		}
+		if ok {
+			return true
+		}
+	}
+	return false
+}
+
+// builtInOrderOf: the slice value src lists things in the order of the collection in field `field`: it is (a view of)
+// that collection, or a local list every element of which was appended inside a loop whose outermost range is such a
+// list (a first pass that resolves the entries, a second pass that reads them).
+func builtInOrderOf(src ssa.Value, field string, depth int) bool {
+	if depth > 2 {
+		return false
+	}
+	var appends []*ssa.Call
+	for v := range eng.Slice(src, nil) {
+		if fr, ok := eng.AsField(v); ok && fr.Field == field {
+			return true
+		}
+		if call, ok := v.(*ssa.Call); ok && eng.CalleeName(call) == "builtin:append" {
+			appends = append(appends, call)
+		}
+	}
+	if len(appends) == 0 {
+		return false
+	}
+	for _, a := range appends {
+		hs := enclosingLoopHeaders(a.Block())
+		if len(hs) == 0 {
+			return false
+		}
+		ok := false
+		for _, s2 := range loopRangeSource(hs[0]) {
+			if s2 != src && builtInOrderOf(s2, field, depth+1) {
+				ok = true
+			}
+		}
+		if !ok {
+			return false
+		}
+	}
+	return true
 }
